@@ -12,7 +12,7 @@ from ..runner import Sub
 ID = 'C14'
 TECHNIQUE = 'PBT against a reference model written from the statement (rational + mirrored float decisions); atheris in thorough'
 LEVEL_TEXT = 'Exploration: Exact equality on decided cases (78%), structural clauses on ambiguous ones. Finds counter-examples (shrunk to a replay file); never proves absence.'
-RULE = ('Cases = (curve n >= 4 with non-constant x and y; reduction = arbitrary index set containing both '
+RULE = ('Cases = (curve n >= 2 with non-constant x and y; reduction = arbitrary index set containing both '
         'ends with compute_removed_points, or the output of a simplifier; knee positions; tx, ty in '
         '(0, 0.6]; extremes in {False, True}) for add_points_even and add_points_even_knees.  Oracle = '
         'reference model written from the statement (candidate segments, ceil(w/(2tx)) evenly '
@@ -96,7 +96,7 @@ def model(p, gaps, knees, tx, ty, ext):
 
 @st.composite
 def cases(draw, tier):
-    c = draw(S.curves(4, 40 if tier == 'quick' else 200,
+    c = draw(S.curves(2, 40 if tier == 'quick' else 200,
                       families=['noise', 'mono_dec', 'mono_dec', 'ulp', 'convex', 'concave', 'pwl_dyadic',
                                 'pwl_rational', 'plateau', 'steps', 'trace', 'repo', 'outlier'],
                       big_n=160 if tier == 'quick' else 600))
